@@ -96,11 +96,44 @@ class NgapEnc(Stream):
         return A.class_key("C03", cl)
 
 
+class GoldenEnc(NgapEnc):
+    """values over the frozen TS 38.413 types handed to the implementation by field name; oracle: the reference X.691
+    encoder over the frozen types. On the unchanged tree this repeats ngap-enc with an independent oracle; when the
+    regenerated schema stops being the frozen one (schema_is_golden breaks) it is what finds the failing value."""
+    name = "golden-enc"
+    model_check = None
+    spec_check = None
+    model_out = None
+
+    def generate(self, rng, tier):
+        search = getattr(self, "search", False)
+        cases, self.skipped = A.golden_cases(self.S, rng, 12 if search else 1 if tier == "quick" else 4,
+                                             40 if search else 2 if tier == "quick" else 8)
+        return cases
+
+    def go_case(self, c):
+        return {"root": c["root"], "value": c["value"], "expect": c["expect"]}
+
+    def from_replay(self, c):
+        return dict(c, wild=False, msg=c["root"])
+
+    def direct_check(self, c, o):
+        if 'panic' in o: return "a constraint-satisfying value makes the encoder panic: " + str(o['panic'])[:200]
+        if 'enc' not in o: return "a constraint-satisfying value is refused: " + str(o.get('err'))[:200]
+        if o['enc'] != c['expect']:
+            return "the encoding differs from the X.691 encoding of this value over the TS 38.413 types (fields taken by name): expected " + c['expect'][:400]
+        return None
+
+    def known(self, c, o):
+        try: return NgapEnc.known(self, c, o)
+        except Exception: return None
+
+
 class C03(A.AperCheck):
     pid = "C03"
     prop_files = ["Properties/C03.v"]
     extra_targets = ["Model/AperCheck.vo", "Spec/X691Check.vo"]
-    streams = [PrimEnc(), NgapEnc()]
+    streams = [PrimEnc(), NgapEnc(), GoldenEnc()]
     trusted = ["Coq 8.16.1 kernel incl. vm_compute (no native_compute); no axioms (Print Assumptions: closed under the global context)",
                "hand-written models Model/AperEnc.v, Model/AperDec.v (marshal.go / aper.go) tied by the correspondence streams: implementation == model on every case, incl. error identity and panics",
                "Go slices modelled with capacity == length (the harness hands exact-capacity slices to the codec)",
